@@ -613,7 +613,7 @@ func (t *TriDense) SliceTri(i, k int) Triangular {
 }
 
 func (t *TriDense) sliceTri(i, k int) *TriDense {
-	if i < 0 || t.cap < i || k < i || t.cap < k {
+	if i < 0 || t.cap < i || k <= i || t.cap < k {
 		panic(ErrIndexOutOfRange)
 	}
 	v := *t
